@@ -3,6 +3,7 @@
 use crate::util::*;
 use serde_json::{json, Value};
 
+pub mod names;
 pub mod patterns;
 pub mod versions;
 
@@ -40,6 +41,9 @@ impl Gen {
                 let ns: Vec<Value> = names.iter().map(|n| codes(n)).collect();
                 Some(("patmatch".into(), json!({"p": codes(&p), "ns": ns})))
             }
+            "pkgname" => Some(("pkgname".into(), json!({"s": codes(&names::pkgname(rng))}))),
+            "pkgpath" => Some(("pkgpath".into(), json!({"s": codes(&names::pkgpath(rng))}))),
+            "depend" => Some(("depend".into(), json!({"s": codes(&names::depend(rng))}))),
             "reduce" => {
                 // a pool of candidates for one pattern and a random order of pairwise reductions
                 let (p, mut names) = match rng.below(3) { 0 => patterns::dewey(rng), 1 => patterns::glob(rng), _ => patterns::brace(rng) };
